@@ -75,9 +75,9 @@ func (e *Engine) intrinsic(st *State, f *Frame, fn *ssa.Function, args []Value, 
 		k := e.lockKey(st, p)
 		e.parYield(st, "Lock")
 		if st.locks[k] > 0 {
-			if st.par != nil && st.lockOwner[k] != st.par.cur+1 {
-				// held by the other thread: wait for it
-				return e.blocked(st, "mutex held by the other goroutine", ins), true
+			if st.heldByOther(k) {
+				// held by another live thread: wait for it
+				return e.blocked(st, "mutex held by another goroutine", ins), true
 			}
 			nm := e.lockName(st, p)
 			if st.open != nil {
@@ -88,8 +88,8 @@ func (e *Engine) intrinsic(st *State, f *Frame, fn *ssa.Function, args []Value, 
 			return stDone, true
 		}
 		st.locks[k]++
+		st.setLockOwner(k, st.tid())
 		if st.par != nil {
-			st.setLockOwner(k, st.par.cur+1)
 			e.parProgress(st)
 		}
 		st.events = append(st.events, Event{name: "lock", s: "lock " + e.lockName(st, p)})
@@ -109,9 +109,7 @@ func (e *Engine) intrinsic(st *State, f *Frame, fn *ssa.Function, args []Value, 
 			return stDone, true
 		}
 		st.locks[k]--
-		if st.par != nil {
-			e.parProgress(st)
-		}
+		e.parProgress(st)
 		st.events = append(st.events, Event{name: "unlock", s: "unlock " + e.lockName(st, p)})
 		return ret(nil), true
 	case "(*sync.Mutex).TryLock":
@@ -121,6 +119,7 @@ func (e *Engine) intrinsic(st *State, f *Frame, fn *ssa.Function, args []Value, 
 			return ret(tFalse), true
 		}
 		st.locks[k]++
+		st.setLockOwner(k, st.tid())
 		return ret(tTrue), true
 	case "(*sync.Once).Do":
 		p := args[0].(*PtrVal)
@@ -547,7 +546,7 @@ func (e *Engine) harnessIntrinsic(st *State, f *Frame, fn *ssa.Function, name st
 		// mutexes held by the running goroutine
 		n := 0
 		for k, c := range st.locks {
-			if st.par != nil && st.lockOwner[k] != st.par.cur+1 {
+			if st.heldByOther(k) {
 				continue
 			}
 			n += c
@@ -667,11 +666,20 @@ func (e *Engine) harnessIntrinsic(st *State, f *Frame, fn *ssa.Function, name st
 	case "vNoBlock":
 		st.noBlock = asTerm(args[0]).IsTrue()
 		return ret(nil)
+	case "vSettle":
+		// let every other goroutine run until each has finished or waits (cooperative, oldest
+		// first); this call re-executes after each of them stops
+		if e.runOther(st) {
+			return stCont
+		}
+		return ret(nil)
+	case "vParkedCount":
+		return ret(c64(int64(len(st.parked))))
 	case "vMutexFree":
 		p := args[0].(*PtrVal)
 		k := e.lockKey(st, p)
-		if st.par != nil && st.lockOwner[k] != st.par.cur+1 {
-			return ret(tTrue) // held (if at all) by the other goroutine: not this goroutine's leak
+		if st.heldByOther(k) {
+			return ret(tTrue) // held (if at all) by another live goroutine: not this goroutine's leak
 		}
 		return ret(Bool(st.locks[k] == 0))
 	case "vHavocChan":
